@@ -557,6 +557,17 @@ func init() {
 		"sync.fatal": func(fr *frame, args []value) value {
 			panic(fr.i.runtimeError("fatal error: " + toString(args[0])))
 		},
+		// randomness: the buffer keeps its (zero) bytes; nothing the obligations assert may depend on the values
+		"(*crypto/rand.reader).Read": func(fr *frame, args []value) value {
+			fr.i.noteStub("crypto/rand.Reader.Read: buffer left as it is (randomness is an environment input; the cipher contract does not depend on the key)")
+			b, _ := args[1].([]value)
+			return tuple{len(b), iface{}}
+		},
+		"crypto/rand.Read": func(fr *frame, args []value) value {
+			fr.i.noteStub("crypto/rand.Read: buffer left as it is")
+			b, _ := args[0].([]value)
+			return tuple{len(b), iface{}}
+		},
 		"(*sync.Pool).Get": func(fr *frame, args []value) value {
 			p := args[0].(*value)
 			st := (*p).(structure)
